@@ -2,7 +2,7 @@
     The translator maps time.Time to its Unix second count and refuses any other method of the type, so that the
     code depends on nothing else about the instant is a fact about the source, not only about the model. *)
 From Coq Require Import String.
-From OtpV Require Import Prelude Sha GoSem Tables Decoder Derive Otp Rfc4226 Errors OtpProofs Src SrcLift SrcEqOtp SrcTop C02.
+From OtpV Require Import Prelude Sha GoSem Tables Decoder Derive Otp Rfc4226 Errors OtpProofs Src SrcLift SrcTop SrcEqDecode SrcEqValidate SrcEqHotp SrcEqTotp C02.
 Open Scope N_scope.
 
 Theorem C02src_is_hotp : forall fuel junk secret unix p, runs fuel junk secret -> (0 <= unix < 2 ^ 62)%Z ->
